@@ -123,6 +123,44 @@ def probe_db():
     return db.Database('probe', pd.DataFrame({'x': [1.5, 1.5], 'ID': [1, 2]}))
 
 
+def names_reach(build, types, n, i, filler, notes, cname):
+    """do the hooks of id assignment reach an elementary expression planted in slot i?  Every type of
+    elementary expression the slot can hold is planted: `dict_of_elementary_expression` /
+    `set_of_elementary_expression` of its type must list it, `embed_expression` must see its class and
+    `set_id_manager` must hand it the id manager"""
+    from biogeme.expressions import Variable, Beta, bioDraws, RandomVariable, TypeOfElementaryExpression as T
+
+    t = types[i]
+    probes = []
+    if t in ('beta', 'any', 'one'):
+        probes += [(Beta('zzq', 1.0, None, None, 0), T.FREE_BETA), (Beta('zzq', 1.0, None, None, 1), T.FIXED_BETA)]
+    if t in ('var', 'any', 'one'):
+        probes += [(Variable('x'), T.VARIABLE)]
+    if t in ('any', 'one'):
+        probes += [(bioDraws('zzq', 'NORMAL'), T.DRAWS), (RandomVariable('zzq'), T.RANDOM_VARIABLE)]
+    ok = True
+    for probe, typ in probes:
+        ch = [filler(types[j], j) for j in range(n)]
+        if typ == T.VARIABLE:
+            # a variable no filler uses: column ID of the probe database
+            probe = Variable('ID')
+        ch[i] = probe
+        try:
+            obj = build(ch)
+            good = (probe.name in obj.dict_of_elementary_expression(typ) and probe.name in obj.set_of_elementary_expression(typ)
+                    and obj.embed_expression(type(probe).__name__))
+            marker = object()
+            obj.set_id_manager(None)
+            probe.id_manager = marker
+            obj.set_id_manager(None)
+            good = good and probe.id_manager is None
+        except Exception as e:  # noqa: BLE001
+            good = False
+            notes.append(f'{cname} slot {i} hook names: {type(e).__name__}: {e}'[:200])
+        ok = ok and bool(good)
+    return ok
+
+
 def translate(ctx):
     """regenerate Generated/Operators.lean from the live classes"""
     from biogeme.expressions import Variable, Beta, bioDraws, RandomVariable
@@ -148,10 +186,13 @@ def translate(ctx):
                 return Numeric(1)
             return Beta(f'b{i}', 1.0, None, None, 0) if t == 'beta' else Variable('x')
 
-        reach = {'audit': [], 'draws': [], 'rv': [], 'panel': []}
+        reach = {'audit': [], 'draws': [], 'rv': [], 'panel': [], 'names': []}
         for i in range(n):
             for hook in reach:
                 t = types[i]
+                if hook == 'names':
+                    reach[hook].append(names_reach(build, types, n, i, filler, notes, name))
+                    continue
                 probe = {'audit': Variable('zzz'), 'draws': bioDraws('dd', 'NORMAL'), 'rv': RandomVariable('om'), 'panel': Variable('pv')}[hook]
                 if t == 'beta' or (t == 'var' and hook in ('draws', 'rv')):
                     reach[hook].append(None)  # the slot cannot hold this element at all
@@ -191,11 +232,11 @@ def translate(ctx):
     ents = []
     for name, kind, n, reach in sorted(rows):
         if reach is None:
-            ents.append(f'  {{ cls := "{name}", kind := .{kind}, slots := 1, auditReaches := [], drawsReaches := [], rvReaches := [], panelReaches := [] }}')
+            ents.append(f'  {{ cls := "{name}", kind := .{kind}, slots := 1, auditReaches := [], drawsReaches := [], rvReaches := [], panelReaches := [], namesReaches := [] }}')
         else:
             ents.append(f'  {{ cls := "{name}", kind := .{kind}, slots := {n}, auditReaches := {blist(reach["audit"], kind, "audit")}, '
                         f'drawsReaches := {blist(reach["draws"], kind, "draws")}, rvReaches := {blist(reach["rv"], kind, "rv")}, '
-                        f'panelReaches := {blist(reach["panel"], kind, "panel")} }}')
+                        f'panelReaches := {blist(reach["panel"], kind, "panel")}, namesReaches := {blist(reach["names"], kind, "names")} }}')
     lines.append(',\n'.join(ents))
     lines += [']', '', 'end Generated.Operators', '']
     text = '\n'.join(lines)
@@ -318,6 +359,7 @@ KEYWORDS = {
     'varOutsideTraj': ['not inside PanelLikelihoodTrajectory'], 'mcNoDraws': ['must contain a bioDraws'], 'mcNested': ['MonteCarlo statement in another'],
     'mcPanelNoTraj': ['PanelLikelihoodTrajectory'], 'intNoRv': ['must contain a RandomVariable'], 'trajNonPanel': ['only be used with panel data'],
     'logitKeys': ['Incompatible list of alternatives'], 'logitChoice': ['Chosen alternative', 'choice variable', 'chosen alternative'],
+    'duplicateName': ['defined more than once'],
 }
 
 
@@ -386,40 +428,66 @@ def plant_worker(payload):
             obj, nodes, root = plant(fault, chain)
         except Exception as e:  # noqa: BLE001
             out.append({'unbuildable': f'{type(e).__name__}: {e}'[:200]})
+            _progress(payload, out[-1])
             continue
         obs = submit(obj, panel)
         out.append({'nodes': nodes, 'root': root, 'obs': obs})
+        _progress(payload, out[-1])
         if any(obs[p][0] not in ('ok', 'BiogemeError') for p in ('bio', 'expr')):
             break
     return {'results': out}
 
 
-def _run_chunk(chunk):
-    """one chunk through fresh workers, restarting after a foreign exception"""
+def _progress(payload, r):
+    """a worker records each finished item at once: if a later item kills the interpreter, the finished ones are kept"""
+    path = payload.get('progress')
+    if path:
+        with open(path, 'a') as f:
+            f.write(json.dumps(r, default=str) + '\n')
+
+
+def _run_chunk(chunk, worker='plant_worker'):
+    """one chunk through fresh workers, restarting after a foreign exception (a worker stops there: the engine may be
+    poisoned) and after the death of the interpreter (the item that killed it gets a 'worker_error')"""
     results = []
     pos = 0
     while pos < len(chunk):
-        r = core.run_isolated('props.c12', 'plant_worker', {'items': chunk[pos:]}, timeout=1200)
-        got = r.get('results') if isinstance(r, dict) else None
-        if not got:
-            results.append({'worker_error': str(r)[:300]})
-            pos += 1
-            continue
+        fd, prog = tempfile.mkstemp(prefix='vc12_')
+        os.close(fd)
+        try:
+            r = core.run_isolated('props.c12', worker, {'items': chunk[pos:], 'progress': prog}, timeout=1200)
+            got = r.get('results') if isinstance(r, dict) else None
+            died = got is None
+            if died:
+                got = []
+                for line in Path(prog).read_text().splitlines():
+                    try:
+                        got.append(json.loads(line))
+                    except ValueError:
+                        break
+        finally:
+            try:
+                os.unlink(prog)
+            except OSError:
+                pass
         results.extend(got)
         pos += len(got)
+        if (died or not got) and pos < len(chunk):
+            results.append({'worker_error': str(r)[:400]})
+            pos += 1
     return results
 
 
-def run_plantings(items, workers=12):
+def run_plantings(items, workers=12, worker='plant_worker', min_chunk=10):
     """all items through fresh worker processes, in parallel, order preserved"""
     from concurrent.futures import ThreadPoolExecutor
 
     if not items:
         return []
-    size = max(10, (len(items) + workers - 1) // workers)
+    size = max(min_chunk, (len(items) + workers - 1) // workers)
     chunks = [items[i : i + size] for i in range(0, len(items), size)]
     with ThreadPoolExecutor(max_workers=workers) as ex:
-        parts = list(ex.map(_run_chunk, chunks))
+        parts = list(ex.map(lambda c: _run_chunk(c, worker), chunks))
     return [r for p in parts for r in p]
 
 
@@ -486,6 +554,667 @@ def all_contexts():
             if types[i] in ('any', 'one'):
                 out.append((cname, i))
     return out
+
+
+
+# ----------------------------------------------------------------------------- names stream: one name for two kinds of
+# element / a column absent from the data whose name is borne by another element, on every entry path that assigns ids
+
+NAME_COLS = ['x', 'ID', 'COST', 'tt']           # columns of the data of this stream
+NAMES_PRESENT = ['COST', 'tt']                   # names that are columns (and used by no filler of a context)
+NAMES_ABSENT = ['cost', 'p10', 'p2', 'Tt']       # names that are no column (case variants, p10 / p2 order)
+ELEM_KINDS = ['beta', 'betaFixed', 'draws', 'rv', 'var']
+NAME_ENTRIES = ['expr', 'gvc', 'addcol', 'defvar', 'remove', 'vfd', 'bio', 'bio_skip', 'bio_dict']
+ENTRY_MODEL = {'expr': 'expr', 'gvc': 'expr', 'addcol': 'expr', 'defvar': 'expr', 'remove': 'expr', 'vfd': 'expr', 'bio': 'bio',
+               'bio_skip': 'bio_skip', 'bio_dict': 'bio'}
+
+
+class Dag:
+    """abstract formula handed to the Lean model, built side by side with the real object"""
+
+    def __init__(self):
+        self.nodes = []
+
+    def add(self, kind, c=None, name=None, **kw):
+        n = {'kind': kind}
+        if c is not None:
+            n['c'] = list(c)
+        if name is not None:
+            n['name'] = name
+        n.update(kw)
+        self.nodes.append(n)
+        return len(self.nodes) - 1
+
+
+def mk_elementary(kind, name):
+    from biogeme.expressions import Variable, Beta, bioDraws, RandomVariable
+
+    if kind == 'beta':
+        return Beta(name, 0.5, None, None, 0)
+    if kind == 'betaFixed':
+        return Beta(name, 0.5, None, None, 1)
+    if kind == 'draws':
+        return bioDraws(name, 'NORMAL')
+    if kind == 'rv':
+        return RandomVariable(name)
+    if kind == 'var':
+        return Variable(name)
+    raise ValueError(kind)
+
+
+def unit(dag, elems):
+    """a self-contained sub-formula using the given elementary expressions: their product, inside one Integrate per
+    integration variable and one MonteCarlo if it has draws (so that no placement rule is violated)"""
+    from biogeme.expressions import MonteCarlo, Integrate
+
+    obj, idx = None, None
+    for kind, name in elems:
+        o = mk_elementary(kind, name)
+        i = dag.add(kind, name=name)
+        if obj is None:
+            obj, idx = o, i
+        else:
+            obj = obj * o
+            idx = dag.add('op', [idx, i])
+    done = []
+    for kind, name in elems:
+        if kind == 'rv' and name not in done:
+            done.append(name)
+            obj = Integrate(obj, name)
+            idx = dag.add('integrate', [idx])
+    if any(k == 'draws' for k, _ in elems):
+        obj = MonteCarlo(obj)
+        idx = dag.add('monteCarlo', [idx])
+    return obj, idx
+
+
+def wrap(dag, obj, idx, chain):
+    """plant (obj, idx) in the chain of (class, slot) contexts, innermost first; fillers carry their names"""
+    from biogeme.expressions import Variable, Beta, Numeric
+
+    R = recipes()
+    for cname, slot in chain:
+        kind, n, build, types = R[cname]
+        ch, ids = [], []
+        for j in range(n):
+            if j == slot:
+                ch.append(obj)
+                ids.append(idx)
+            elif types[j] == 'beta':
+                ch.append(Beta(f'b{j}', 1.0, None, None, 0))
+                ids.append(dag.add('beta', name=f'b{j}'))
+            elif types[j] == 'one':
+                ch.append(Numeric(1))
+                ids.append(dag.add('leaf'))
+            else:
+                ch.append(Variable('x'))
+                ids.append(dag.add('var', name='x'))
+        obj = build(ch)
+        if kind == 'catalog':
+            ids = [ids[0]]
+        idx = dag.add(kind, ids)
+    return obj, idx
+
+
+def build_names_case(case, entry):
+    """real formula(s) + abstract dag of a names case, for one entry path.  Returns (formulas, dag nodes, root):
+    `formulas` is the single formula, or for entry 'bio_dict' the dict of two formulas (the side term is the log
+    likelihood, the planted term a second formula: the two elements may sit in different formulas)"""
+    from biogeme.expressions import Variable, Beta
+
+    dag = Dag()
+    hole = [tuple(e[:2]) for e in case['elems'] if e[2] == 'hole']
+    side = [tuple(e[:2]) for e in case['elems'] if e[2] == 'side']
+    obj, idx = unit(dag, hole)
+    obj, idx = wrap(dag, obj, idx, [tuple(c) for c in case['chain']])
+    if entry == 'bio_dict':
+        if side:
+            sobj, sidx = unit(dag, side)
+        else:
+            sobj = Beta('bll', 0.5, None, None, 0) * Variable('x')
+            sidx = dag.add('op', [dag.add('beta', name='bll'), dag.add('var', name='x')])
+        root = dag.add('op', [sidx, idx])  # the formulas of the dict are audited and numbered together
+        return {'log_like': sobj, 'sim': obj}, dag.nodes, root
+    if side:
+        sobj, sidx = unit(dag, side)
+        obj = sobj + obj
+        idx = dag.add('op', [sidx, idx])
+    return obj, dag.nodes, idx
+
+
+def names_frame():
+    import pandas as pd
+
+    return pd.DataFrame({'x': [1.5, 1.5, 1.5], 'ID': [1, 1, 2], 'COST': [1.0, 4.0, 2.0], 'tt': [0.5, 0.25, 2.0]})
+
+
+def names_submit(case, entry):
+    """one entry path on a names case, everything built afresh; the engine call on the submitted formula is
+    intercepted (a formula that gets that far has been accepted)"""
+    import biogeme.biogeme as bio
+    import biogeme.database as dbm
+    import biogeme.expressions.base_expressions as be
+
+    formulas, nodes, root = build_names_case(case, entry)
+    db = dbm.Database('t', names_frame())
+    targets = list(formulas.values()) if isinstance(formulas, dict) else [formulas]
+    orig = be.calculate_function_and_derivatives
+
+    def stub(*a, **k):
+        target = k.get('the_expression', a[0] if a else None)
+        if any(target is t for t in targets):
+            raise ReachedEngine()
+        return orig(*a, **k)
+
+    be.calculate_function_and_derivatives = stub
+    try:
+        with core.scratch('[MonteCarlo]\nnumber_of_draws = 3\n'):
+            try:
+                if entry == 'expr':
+                    formulas.get_value_and_derivatives(database=db, gradient=False, hessian=False, bhhh=False, aggregation=False, prepare_ids=True, number_of_draws=3)
+                elif entry == 'gvc':
+                    formulas.get_value_c(database=db, prepare_ids=True, number_of_draws=3)
+                elif entry == 'addcol':
+                    db.add_column(formulas, 'newcol')
+                elif entry == 'defvar':
+                    db.define_variable('newvar', formulas)
+                elif entry == 'remove':
+                    db.remove(formulas)
+                elif entry == 'vfd':
+                    db.values_from_database(formulas)
+                elif entry == 'bio':
+                    bio.BIOGEME(db, formulas)
+                elif entry == 'bio_skip':
+                    bio.BIOGEME(db, formulas, skip_audit=True)
+                elif entry == 'bio_dict':
+                    bio.BIOGEME(db, formulas)
+                else:
+                    raise ValueError(entry)
+                obs = ['ok', '']
+            except ReachedEngine:
+                obs = ['ok', '']
+            except Exception as e:  # noqa: BLE001
+                obs = [core.exc_kind(e), f'{e}'[:600]]
+    finally:
+        be.calculate_function_and_derivatives = orig
+    return {'nodes': nodes, 'root': root, 'obs': obs}
+
+
+def names_worker(payload):
+    import warnings
+    import logging
+
+    warnings.simplefilter('ignore')
+    logging.disable(logging.CRITICAL)
+    out = []
+    for case in payload['items']:
+        r = {}
+        stop = False
+        for entry in NAME_ENTRIES:
+            try:
+                r[entry] = names_submit(case, entry)
+            except Exception as e:  # noqa: BLE001
+                r[entry] = {'unbuildable': f'{type(e).__name__}: {e}'[:200]}
+                continue
+            if r[entry]['obs'][0].startswith('Other:'):
+                stop = True  # possibly an engine exception: the process may be poisoned
+                break
+        out.append(r)
+        _progress(payload, r)
+        if stop:
+            break
+    return {'results': out}
+
+
+def names_oracle(case):
+    """from the property statement alone.  Returns (must_refuse, offending names, must_accept)"""
+    elems = [tuple(e[:2]) for e in case['elems']]
+    classes = {}
+    for kind, name in elems:
+        classes.setdefault(name, set()).add('parameter' if kind in ('beta', 'betaFixed') else kind)
+    absent = sorted({n for k, n in elems if k == 'var' and n not in NAME_COLS})       # column absent from the data
+    clash = sorted(n for n, cl in classes.items() if len(cl) >= 2)                     # one name for two kinds of element
+    offending = sorted(set(absent) | set(clash))
+    plain = all(slot_type(tuple(c)) == 'any' and c[0] not in ('MonteCarlo', 'Integrate', 'PanelLikelihoodTrajectory') for c in case['chain'])
+    kinds_of = {}
+    for kind, name in elems:
+        kinds_of.setdefault(name, set()).add(kind)
+    clean = (not offending and plain and all(len(v) == 1 for v in kinds_of.values())
+             and all(k in ('beta', 'betaFixed', 'var') for k, _ in elems)
+             and not any(k != 'var' and n in NAME_COLS for k, n in elems))
+    return bool(offending), offending, clean, plain
+
+
+def names_message_ok(faults, msg):
+    """the message names one of the faults the model reports: its kind and, for a named fault, the name"""
+    for f in faults:
+        kind, _, name = f.partition(':')
+        if any(k in msg for k in KEYWORDS.get(kind, [kind])) and (not name or name in msg):
+            return True
+    return False
+
+
+def judge_names(ctx, res, case, r):
+    base = {'stream': 'names', 'elems': case['elems'], 'chain': case['chain']}
+    if 'worker_error' in r:
+        res.notes.append(f'names stream: worker error on {base}: {r["worker_error"]}')
+        res.tally('names:worker_error')
+        return
+    must, offending, clean, plain = names_oracle(case)
+    res.tally('names:' + case.get('shape', '?'))
+    for entry in NAME_ENTRIES:
+        e = r.get(entry)
+        if e is None:
+            continue
+        c = dict(base, entry=entry)
+        if 'unbuildable' in e:
+            res.tally('names:unbuildable')
+            continue
+        res.count(c, nontrivial=len(case['chain']) >= 1 or len(case['elems']) >= 2)
+        kind, msg = e['obs']
+        where = f'names:{entry}'
+        if must:
+            if kind == 'ok':
+                res.violate(f'names {offending}: a column absent from the data / one name for two kinds of element is accepted ({entry})', c, e['obs'], 'BiogemeError', where=where)
+            elif kind != 'BiogemeError':
+                res.violate(f'names {offending}: refused with {kind} instead of the library error ({entry})', c, e['obs'], 'BiogemeError naming the element', where=where)
+            elif plain and not any(n in msg for n in offending):
+                # no other fault is present in a plain context: the explanatory message must name the element
+                res.violate(f'names {offending}: the error message names none of them ({entry})', c, e['obs'], 'a message naming the element', where=where)
+        if clean and kind != 'ok':
+            res.violate(f'valid specification (distinct names, all columns present) refused ({entry})', c, e['obs'], 'accepted', where=where)
+        req = {'op': 'stages', 'dag': e['nodes'], 'root': e['root'], 'cols': NAME_COLS, 'panel': False}
+
+        def cb(ans, obs=e['obs'], c=c, entry=entry, where=where):
+            if 'error' in ans:
+                res.diverge(f'model: {ans["error"]}', c, ans, obs, where=where)
+                return
+            faults = ans[ENTRY_MODEL[entry]]
+            kind, msg = obs
+            if entry == 'bio_skip' and not faults and ans['bio']:
+                # the audit was switched off by the caller and the ids are in order: what becomes of a fault that
+                # only the audit reports is not stated by the property
+                res.tally('names:bio_skip with an audit-only fault (not judged)')
+                return
+            if faults and kind == 'ok':
+                res.diverge(f'model reports {faults}, library accepts ({entry})', c, faults, obs, where=where)
+            elif not faults and kind != 'ok':
+                res.diverge(f'model accepts, library refuses ({entry})', c, faults, obs, where=where)
+            elif faults and kind != 'BiogemeError':
+                res.diverge(f'refused with {kind}, not the library error ({entry})', c, faults, obs, where=where)
+            elif faults and not names_message_ok(faults, msg):
+                res.diverge(f'message names none of the faults {faults} of the stage that raises ({entry})', c, faults, msg[:200], where=where)
+
+        ctx.batch.add(req, cb)
+
+
+NAMES_CORPUS = [
+    # the classical slip: a parameter and a variable share a name, the column is spelled differently
+    {'shape': 'corpus', 'elems': [['beta', 'cost', 'hole'], ['var', 'cost', 'hole']], 'chain': []},
+    {'shape': 'corpus', 'elems': [['beta', 'cost', 'side'], ['var', 'cost', 'hole']], 'chain': [['exp', 0], ['Elem', 2]]},
+    {'shape': 'corpus', 'elems': [['betaFixed', 'p2', 'hole'], ['var', 'p2', 'hole']], 'chain': [['_bioLogLogit', 1]]},
+    {'shape': 'corpus', 'elems': [['draws', 'Tt', 'hole'], ['var', 'Tt', 'hole']], 'chain': []},
+    {'shape': 'corpus', 'elems': [['rv', 'p10', 'hole'], ['var', 'p10', 'side']], 'chain': [['Greater', 1]]},
+    {'shape': 'corpus', 'elems': [['var', 'cost', 'hole']], 'chain': [['bioLinearUtility', 3]]},
+    # one name for two kinds of element
+    {'shape': 'corpus', 'elems': [['beta', 'tt', 'hole'], ['var', 'tt', 'hole']], 'chain': []},
+    {'shape': 'corpus', 'elems': [['beta', 'p2', 'side'], ['draws', 'p2', 'hole']], 'chain': [['Times', 0]]},
+    {'shape': 'corpus', 'elems': [['rv', 'p2', 'hole'], ['draws', 'p2', 'hole']], 'chain': []},
+    {'shape': 'corpus', 'elems': [['beta', 'p10', 'hole'], ['betaFixed', 'p10', 'side']], 'chain': []},
+    {'shape': 'corpus', 'elems': [['beta', 'COST', 'hole']], 'chain': []},
+    # valid
+    {'shape': 'corpus', 'elems': [['beta', 'cost', 'hole'], ['var', 'COST', 'hole'], ['betaFixed', 'p2', 'side']], 'chain': [['Plus', 1]]},
+    {'shape': 'corpus', 'elems': [['beta', 'p2', 'hole'], ['beta', 'p2', 'side'], ['draws', 'p10', 'hole'], ['rv', 'Tt', 'side']], 'chain': []},
+]
+
+
+def gen_names_case(rng, ctxs_any):
+    shape = rng.choice(['collide', 'collide', 'absent_collide', 'absent_collide', 'absent_alone', 'column_param', 'valid', 'valid', 'collide3', 'same_kind'])
+    nonvar = ['beta', 'betaFixed', 'draws', 'rv']
+    elems = []
+    if shape == 'collide':
+        if rng.random() < 0.4:
+            n = rng.choice(NAMES_PRESENT)
+            elems = [[rng.choice(nonvar), n], ['var', n]]
+        else:
+            n = rng.choice(NAMES_ABSENT)
+            k1, k2 = rng.sample(nonvar, 2)
+            elems = [[k1, n], [k2, n]]
+    elif shape == 'absent_collide':
+        n = rng.choice(NAMES_ABSENT)
+        elems = [[rng.choice(nonvar), n], ['var', n]]
+        if rng.random() < 0.3:
+            elems.append(['var', rng.choice(NAMES_PRESENT)])
+    elif shape == 'absent_alone':
+        elems = [['var', rng.choice(NAMES_ABSENT)]]
+        if rng.random() < 0.5:
+            elems.append([rng.choice(nonvar), rng.choice([m for m in NAMES_ABSENT if m != elems[0][1]])])
+    elif shape == 'column_param':
+        elems = [[rng.choice(nonvar), rng.choice(NAMES_PRESENT)]]
+        if rng.random() < 0.5:
+            elems.append(['var', rng.choice([m for m in NAMES_PRESENT if m != elems[0][1]])])
+    elif shape == 'valid':
+        names = rng.sample(NAMES_ABSENT, rng.randint(1, 3))
+        elems = [[rng.choice(nonvar if rng.random() < 0.4 else ['beta', 'betaFixed']), m] for m in names]
+        for m in rng.sample(NAMES_PRESENT, rng.randint(0, 2)):
+            elems.append(['var', m])
+    elif shape == 'collide3':
+        n, m = rng.sample(NAMES_ABSENT, 2)
+        k1, k2 = rng.sample(nonvar, 2)
+        elems = [[k1, n], [rng.choice(nonvar), m], [k2, n]]
+    else:  # same_kind: the same element written twice is one element
+        n = rng.choice(NAMES_ABSENT)
+        k = rng.choice(nonvar)
+        elems = [[k, n], [k, n]]
+    rng.shuffle(elems)
+    places = ['hole'] + [rng.choice(['hole', 'side']) for _ in elems[1:]]
+    elems = [e + [p] for e, p in zip(elems, places)]
+    chain = [list(rng.choice(ctxs_any)) for _ in range(rng.choice([0, 1, 1, 2, 2, 3]))]
+    if any(e[0] == 'rv' for e in elems):
+        # the Integrate context integrates over its own variable 'om': an integrand with other integration variables
+        # only is a fault the property does not list (the integration variable of the operator is not in the formula)
+        chain = [c for c in chain if c[0] != 'Integrate']
+    return {'shape': shape, 'elems': elems, 'chain': chain}
+
+
+def names_check(ctx, res, rng, n_random):
+    ctxs_any = [c for c in all_contexts() if slot_type(c) == 'any']
+    cases = [dict(c) for c in NAMES_CORPUS]
+    # the absent column that bears the name of a parameter, in EVERY (class, slot) context
+    for i, c in enumerate(ctxs_any):
+        k = ELEM_KINDS[i % 4]
+        if k == 'rv' and c[0] == 'Integrate':
+            k = 'beta'
+        cases.append({'shape': 'every_slot', 'elems': [[k, NAMES_ABSENT[i % len(NAMES_ABSENT)], 'side' if i % 3 == 0 else 'hole'],
+                                                        ['var', NAMES_ABSENT[i % len(NAMES_ABSENT)], 'hole']], 'chain': [list(c)]})
+    for _ in range(n_random):
+        cases.append(gen_names_case(rng, ctxs_any))
+    results = run_plantings(cases, worker='names_worker', min_chunk=6)
+    for c, r in zip(cases, results):
+        judge_names(ctx, res, c, r)
+
+
+# ----------------------------------------------------------------------------- data life cycle: the data held by a Database
+# changes after its construction (operations of the library that rebind or edit `database.data`, or the user's own
+# preparation steps on the frame); non-numeric, NaN or empty data must be refused when it is supplied again
+
+LIFE_PRE = ['bio', 'bio_skip', 'panel', 'assign_copy', 'assign_derived', 'add_column', 'remove_some', 'scale', 'reindex']
+LIFE_FAULTS = ['nan_cell_used', 'nan_cell_unused', 'nan_derived', 'nan_new_column', 'str_column', 'object_cell',
+               'empty_remove', 'empty_slice', 'empty_drop']
+LIFE_POST = ['none', 'assign_copy']
+LIFE_ENTRIES_DATA = ['bio', 'bio_dict', 'db_new']            # points where the data is supplied (and audited) again
+LIFE_ENTRIES_EXPR = ['gvc', 'vfd', 'addcol']                  # formula-level entry points (empty data / valid data only)
+
+
+def life_frame():
+    import pandas as pd
+
+    return pd.DataFrame({'id': [1, 1, 2, 2, 3, 3], 'x': [1.0, 2.0, 0.0, 4.0, 5.0, 6.0], 'y': [2.0, 1.0, 0.0, 3.0, 1.0, 2.0],
+                         'z': [0.5, 0.25, 0.125, 0.75, 1.5, 1.0]})
+
+
+def life_track(case):
+    """abstract frame after the operations of the case, by construction: {'cols': {name: [numeric, hasNaN]}, 'rows': n}"""
+    cols = {'id': [True, False], 'x': [True, False], 'y': [True, False], 'z': [True, False]}
+    rows = 6
+    for op in case['pre']:
+        if op == 'assign_derived':
+            cols['w'] = [True, False]
+        elif op == 'add_column':
+            cols['x2'] = [True, False]
+        elif op == 'remove_some':
+            rows -= 1
+    f = case['fault']
+    if f in ('nan_cell_used',):
+        cols['x'][1] = True
+    elif f == 'nan_cell_unused':
+        cols['y'][1] = True
+    elif f == 'nan_derived':
+        cols['ratio'] = [True, True]
+    elif f == 'nan_new_column':
+        cols['n'] = [True, True]
+    elif f == 'str_column':
+        cols['s'] = [False, False]
+    elif f == 'object_cell':
+        cols['y'] = [False, False]
+    elif f and f.startswith('empty'):
+        rows = 0
+    return {'cols': cols, 'rows': rows}
+
+
+def life_formula(panel, alt=False):
+    from biogeme.expressions import Beta, Variable, PanelLikelihoodTrajectory, exp, log
+
+    core_f = -((Beta('b', 0.5, None, None, 0) * Variable('x') - Variable('z')) ** 2)
+    if alt:
+        core_f = core_f - Beta('c', 0.25, None, None, 0) * Variable('z')
+    return log(PanelLikelihoodTrajectory(exp(core_f))) if panel else core_f
+
+
+def life_apply(db, op, panel):
+    import numpy as np
+    import biogeme.biogeme as bio
+    from biogeme.expressions import Variable
+
+    d = db.data
+    if op == 'bio':
+        bio.BIOGEME(db, life_formula(panel))
+    elif op == 'bio_skip':
+        bio.BIOGEME(db, life_formula(panel), skip_audit=True)
+    elif op == 'panel':
+        db.panel('id')
+    elif op == 'assign_copy':
+        db.data = d.copy()
+    elif op == 'assign_derived':
+        db.data = d.assign(w=d['x'] + d['y'])
+    elif op == 'add_column':
+        db.add_column(Variable('x') * 2, 'x2')
+    elif op == 'remove_some':
+        db.remove(Variable('x') > 5.5)
+    elif op == 'scale':
+        db.scale_column('z', 0.5)
+    elif op == 'reindex':
+        db.data = d.reset_index(drop=True)
+    elif op == 'nan_cell_used':
+        db.data.loc[db.data.index[3], 'x'] = np.nan
+    elif op == 'nan_cell_unused':
+        db.data.loc[db.data.index[0], 'y'] = np.nan
+    elif op == 'nan_derived':
+        db.data = d.assign(ratio=d['x'] / d['y'])      # 0/0 in the third row
+    elif op == 'nan_new_column':
+        db.data['n'] = [np.nan] * len(d)
+    elif op == 'str_column':
+        db.data['s'] = ['a'] * len(d)
+    elif op == 'object_cell':
+        col = d['y'].astype(object)
+        col.iloc[1] = 'n/a'
+        db.data['y'] = col
+    elif op == 'empty_remove':
+        db.remove(Variable('x') > -1)
+    elif op == 'empty_slice':
+        db.data = d.iloc[0:0]
+    elif op == 'empty_drop':
+        db.data.drop(db.data.index, inplace=True)
+    elif op == 'none':
+        pass
+    else:
+        raise ValueError(op)
+
+
+def life_inspect(df):
+    """what the frame holds, read with pandas/numpy only"""
+    return {'cols': {str(c): [df[c].dtype.kind in 'iuf', bool(df[c].isna().to_numpy().any())] for c in df.columns}, 'rows': int(len(df))}
+
+
+def life_worker(payload):
+    import warnings
+    import logging
+
+    warnings.simplefilter('ignore')
+    logging.disable(logging.CRITICAL)
+    import biogeme.biogeme as bio
+    import biogeme.database as dbm
+    from biogeme.expressions import Beta, Variable, Numeric
+
+    out = []
+    for case in payload['items']:
+        r = {}
+        with core.scratch('[MonteCarlo]\nnumber_of_draws = 3\n'):
+            try:
+                db = dbm.Database('life', life_frame())
+                for op in case['pre']:
+                    life_apply(db, op, db.is_panel())
+            except Exception as e:  # noqa: BLE001
+                out.append({'setup_failed': f'{type(e).__name__}: {e}'[:300]})
+                _progress(payload, out[-1])
+                continue
+            try:
+                if case['fault']:
+                    life_apply(db, case['fault'], db.is_panel())
+                life_apply(db, case['post'], db.is_panel())
+            except Exception as e:  # noqa: BLE001
+                out.append({'injection_failed': f'{type(e).__name__}: {e}'[:300]})
+                _progress(payload, out[-1])
+                continue
+            panel = db.is_panel()
+            r['frame'] = life_inspect(db.data)
+            entry = case['entry']
+            try:
+                if entry == 'bio':
+                    B = bio.BIOGEME(db, life_formula(panel, alt=True))
+                    r['obs'] = ['ok', '']
+                elif entry == 'bio_dict':
+                    B = bio.BIOGEME(db, {'log_like': life_formula(panel, alt=True), 'weight': Numeric(1) if not panel else Numeric(1) + 0 * Beta('w0', 0, None, None, 1)})
+                    r['obs'] = ['ok', '']
+                elif entry == 'db_new':
+                    dbm.Database('again', db.data)
+                    r['obs'] = ['ok', '']
+                elif entry == 'gvc':
+                    v = life_formula(panel).get_value_c(database=db, prepare_ids=True)
+                    r['obs'] = ['ok', str([float(t) for t in v])[:200]]
+                elif entry == 'vfd':
+                    v = db.values_from_database(life_formula(panel))
+                    r['obs'] = ['ok', str([float(t) for t in v])[:200]]
+                elif entry == 'addcol':
+                    v = db.add_column(life_formula(panel), 'added')
+                    r['obs'] = ['ok', str([float(t) for t in v])[:200]]
+                else:
+                    raise ValueError(entry)
+            except Exception as e:  # noqa: BLE001
+                r['obs'] = [core.exc_kind(e), f'{e}'[:400]]
+        out.append(r)
+        _progress(payload, r)
+        if r['obs'][0] not in ('ok', 'BiogemeError'):
+            break  # possibly an engine exception: the process may be poisoned
+    return {'results': out}
+
+
+def life_message_ok(faults, msg):
+    low = msg.lower()
+    for f in faults:
+        kind, _, name = f.partition(':')
+        if kind == 'nan' and 'nan' in low:
+            return True
+        if kind == 'nonNumeric' and name in msg:
+            return True
+        if kind == 'empty' and ('no entry' in low or 'empty' in low or 'no data' in low or 'no observation' in low):
+            return True
+    return False
+
+
+def judge_life(ctx, res, case, r):
+    c = {'stream': 'datalife', 'pre': case['pre'], 'fault': case['fault'], 'post': case['post'], 'entry': case['entry']}
+    fault = case['fault'] or ''
+    where = 'datalife: empty data' if fault.startswith('empty') else f'datalife:{case["entry"]}'
+    if 'worker_error' in r:
+        # the interpreter died: nothing was refused with the library's error type
+        res.count(c, nontrivial=True)
+        if fault:
+            res.violate(f'data life cycle: {fault} data: the interpreter is aborted at entry {case["entry"]} instead of a library error', c, r['worker_error'][:300],
+                        'BiogemeError', where=where)
+        else:
+            res.violate(f'data life cycle: valid data: the interpreter is aborted at entry {case["entry"]}', c, r['worker_error'][:300], 'accepted', where=where)
+        return
+    if 'setup_failed' in r or 'injection_failed' in r:
+        res.tally('datalife:setup_or_injection_failed')
+        if 'setup_failed' in r:
+            res.notes.append(f'data life cycle: a valid operation sequence failed: {c}: {r["setup_failed"]}')
+        return
+    tracked = life_track(case)
+    if tracked != r['frame']:
+        res.notes.append(f'data life cycle: tracked frame {tracked} differs from the inspected frame {r["frame"]} for {c}: case skipped')
+        res.tally('datalife:untracked')
+        return
+    res.count(c, nontrivial=True)
+    res.tally('datalife:' + (fault or 'valid'))
+    kind, msg = r['obs']
+    faulty = tracked['rows'] == 0 or any((not nm) or nan for nm, nan in tracked['cols'].values())
+    judged = case['entry'] in LIFE_ENTRIES_DATA or tracked['rows'] == 0 or not faulty
+    if judged and faulty:
+        if kind == 'ok':
+            res.violate(f'data life cycle: {fault} data is accepted at entry {case["entry"]}', c, r['obs'], 'BiogemeError', where=where)
+        elif kind != 'BiogemeError':
+            res.violate(f'data life cycle: {fault} data is refused with {kind} instead of the library error at entry {case["entry"]}', c, r['obs'], 'BiogemeError', where=where)
+    if not faulty and kind != 'ok':
+        res.violate(f'data life cycle: valid data is refused at entry {case["entry"]}', c, r['obs'], 'accepted', where=where)
+    if case['entry'] in LIFE_ENTRIES_DATA:
+        req = {'op': 'dataaudit', 'cols': [{'name': n, 'numeric': v[0], 'hasNaN': v[1]} for n, v in tracked['cols'].items()], 'rows': tracked['rows']}
+
+        def cb(ans, obs=r['obs'], c=c, entry=case['entry'], where=where):
+            if 'error' in ans:
+                res.diverge(f'model: {ans["error"]}', c, ans, obs, where=where)
+                return
+            faults = ans['new' if entry == 'db_new' else 'bio']
+            kind, msg = obs
+            if faults and kind == 'ok':
+                res.diverge(f'data audit: model reports {faults}, library accepts ({entry})', c, faults, obs, where=where)
+            elif not faults and kind != 'ok':
+                res.diverge(f'data audit: model accepts, library refuses ({entry})', c, faults, obs, where=where)
+            elif faults and kind != 'BiogemeError':
+                res.diverge(f'data audit: refused with {kind}, not the library error ({entry})', c, faults, obs, where=where)
+            elif faults and not life_message_ok(faults, msg):
+                res.diverge(f'data audit: message names none of {faults} ({entry})', c, faults, msg[:200], where=where)
+
+        ctx.batch.add(req, cb)
+
+
+def life_entries(fault):
+    if not fault or fault.startswith('empty'):
+        return LIFE_ENTRIES_DATA + LIFE_ENTRIES_EXPR
+    return LIFE_ENTRIES_DATA
+
+
+def life_cases(ctx, rng):
+    cases = []
+    # every fault after every single preparation step (and after none), on the points where data is supplied again
+    for fault in LIFE_FAULTS + [None]:
+        for pre in [[]] + [[p] for p in LIFE_PRE]:
+            ents = life_entries(fault)
+            if ctx.quick:
+                if fault and fault.startswith('empty'):
+                    # (on a tree where empty data still kills the interpreter every such case costs a process)
+                    ents = [rng.choice(ents)] if (not pre or rng.random() < 0.35) else []
+                else:
+                    ents = ['bio'] + [rng.choice(ents[1:])]
+            for entry in ents:
+                cases.append({'pre': pre, 'fault': fault, 'post': rng.choice(LIFE_POST), 'entry': entry})
+    # longer sequences
+    for _ in range(ctx.n(40, 400)):
+        pre = [p for p in rng.sample(LIFE_PRE, rng.randint(2, 4))]
+        fault = rng.choice(LIFE_FAULTS + [None, None])
+        cases.append({'pre': pre, 'fault': fault, 'post': rng.choice(LIFE_POST), 'entry': rng.choice(life_entries(fault))})
+    for c in cases:
+        if 'panel' in c['pre'] and c['entry'] == 'addcol':
+            # on panel data the trajectory formula yields one value per individual, add_column stores one per row
+            c['entry'] = 'vfd'
+    return cases
+
+
+def life_check(ctx, res, rng):
+    cases = life_cases(ctx, rng)
+    results = run_plantings(cases, worker='life_worker', min_chunk=6)
+    for c, r in zip(cases, results):
+        judge_life(ctx, res, c, r)
 
 
 # ----------------------------------------------------------------------------- other clauses (relations on real runs)
@@ -726,7 +1455,8 @@ def poison_check(ctx, res):
                     where='engine: stale exception rethrown (theExceptionPtr never reset)')
 
 
-MATCHERS = {'after_engine_error': lambda case: 'sequence' in (case or {})}
+MATCHERS = {'after_engine_error': lambda case: 'sequence' in (case or {}),
+            'empty_data': lambda case: (case or {}).get('stream') == 'datalife' and str((case or {}).get('fault') or '').startswith('empty')}
 
 # ----------------------------------------------------------------------------- check
 
@@ -779,6 +1509,8 @@ def check(ctx) -> Result:
     nests_check(ctx, res, rng)
     missing_check(ctx, res)
     poison_check(ctx, res)
+    names_check(ctx, res, rng, ctx.n(120, 1500))
+    life_check(ctx, res, rng)
     ctx.batch.flush()
     return res
 
@@ -792,6 +1524,18 @@ def search(ctx, res, broken):
     items = [it for it in items if it[0] in {'unknown_column', 'valid_var', 'valid_num', 'logit_keys'} or not any(slot_type(c) == 'one' for c in it[1])]
     for it, r in zip(items, run_plantings(items)):
         judge_planting(ctx, r2, it, r)
+    if not r2.violations:
+        names_check(ctx, r2, rng, 400)
+    if not r2.violations:
+        class Wide:
+            quick = False
+            n = staticmethod(lambda q, t: t)
+        r3 = Result()
+        cases = life_cases(Wide, core.rng_for('C12-search-life', ctx.seed))
+        for c, r in zip(cases, run_plantings(cases, worker='life_worker', min_chunk=6)):
+            judge_life(ctx, r3, c, r)
+        # the listed finding on empty data is no news
+        r2.violations.extend(v for v in r3.violations if v.get('where') != 'datalife: empty data')
     ctx.batch.items.clear()
     res.violations.extend(r2.violations[:3])
 
@@ -804,6 +1548,14 @@ def replay(ctx, obj):
         judge_planting(ctx, r, it, run_plantings([it])[0])
     elif 'missing_code' in case:
         missing_check(ctx, r)
+    elif case.get('stream') == 'names':
+        c = {'shape': 'replay', 'elems': case['elems'], 'chain': case['chain']}
+        judge_names(ctx, r, c, run_plantings([c], worker='names_worker')[0])
+        if 'entry' in case:
+            r.violations = [v for v in r.violations if v['case'].get('entry') == case['entry']]
+    elif case.get('stream') == 'datalife':
+        c = {k: case[k] for k in ('pre', 'fault', 'post', 'entry')}
+        judge_life(ctx, r, c, run_plantings([c], worker='life_worker')[0])
     else:
         return {'property_fails': False, 'note': 'no concrete input in this replay file'}
     ctx.batch.items.clear()
